@@ -59,7 +59,7 @@ PLANNED_TAGS = [
     'op:remove', 'op:pop', 'op:clear', 'op:set', 'op:set-none', 'phases:2', 'phases:3',
     # B1
     'kind:omitted', 'kind:int', 'kind:float', 'kind:np.int64', 'kind:np.float64', 'kind:str-unit',
-    'kind:str', 'kind:bool', 'kind:list', 'kind:list-np', 'kind:array', 'kind:list-str', 'kind:objs',
+    'kind:str', 'kind:bool', 'kind:list', 'kind:list-np', 'kind:array', 'kind:list-str', 'kind:list-mixed', 'kind:list-mixed2', 'kind:objs',
     'kind:dict-extra', 'kind:dict-override', 'phases:list', 'phases:dict', 'phases:omitted',
     'units:none', 'units:obj', 'units:dict', 'reactor:second write',
     # B2
@@ -1438,10 +1438,11 @@ R_PARAMS = {
                 {'list': [800, 900.5], 'list-np': [('np.int64', 810), ('np.float64', 910.5)], 'array': ('array', [820., 920.5])}),
     'multi_P': (('simulation', 'multi_input', 'pressure'), '_pressure',
                 {'list': [1, 2.5], 'list-np': [('np.int64', 3), ('np.float64', 4.5)], 'array': ('array', [5., 6.5]),
-                 'list-str': ['1 atm', '2.5 bar']}),
+                 'list-str': ['1 atm', '2.5 bar'], 'list-mixed': ['1 atm', 2.5], 'list-mixed2': [3, '2.5 bar']}),
     'multi_flow_rate': (('simulation', 'multi_input', 'flow_rate'), '_length3/_time',
                         {'list': [7, 8.5], 'list-np': [('np.int64', 9), ('np.float64', 10.5)], 'array': ('array', [11., 12.5]),
-                         'list-str': ['1 cm3/s', '2.5 m3/h']}),
+                         'list-str': ['1 cm3/s', '2.5 m3/h'], 'list-mixed': ['1 cm3/s', 8.5],
+                         'list-mixed2': [7, '2.5 m3/h']}),
 }
 R_DICTS = {
     'reactor': (('reactor',), {'dict-extra': {'mode': 'isothermal', 'wall_T': 300.5}, 'dict-override': {'temperature': 555}}),
